@@ -40,6 +40,9 @@ def strategy(tier):
         st.tuples(st.just("recycle"), i, st.booleans()),
         st.tuples(st.just("recycle"), i, st.booleans()),
         st.tuples(st.just("thread"), i),
+        # /proc mounted with hidepid=1, or an LSM: the status file of another
+        # user's process (and of its threads) cannot be opened
+        st.tuples(st.just("hide_status"), i),
         # recycle a cached PID, then let is_running() on the stale object find it
         st.tuples(st.just("recycle_detect"), i, st.booleans()),
         st.tuples(st.just("iter_next"), i, st.integers(1, 3)),
@@ -273,6 +276,11 @@ def run_case(case):
                     p.threads = tl + [simk.Thread(tid, b"thr")]
                     tids[tid] = pid
                     labels.add("thread")
+            elif kind == "hide_status":
+                p = k.procs.get(w.pick_pid(op[1]))
+                if p is not None:
+                    p.unreadable.add("status")
+                    labels.add("status-unreadable")
             elif kind in ("iter_new", "pass"):
                 it = new_iter(op[1])
                 if kind == "pass":
